@@ -1663,3 +1663,10 @@ def _share_symbol_validation():
 
 
 M.after_load = _share_symbol_validation
+
+
+# Assumed summaries of this module that follow from contracts PROVED for another property (Module.implied_by, ENGINE.md):
+# the refinement obligations are generated by this property's check and the proved contract is re-proved here.
+M.implied_by('exactly_lib.symbol.symbol_syntax:is_symbol_name', 'C09')
+M.implied_by('exactly_lib.impls.types.string_.parse_string:string_sdv_from_fragments', 'C09')
+M.implied_by('exactly_lib.type_val_deps.sym_ref.w_str_rend_restrictions.error_messages:unsatisfied_path_relativity', 'C18')
